@@ -85,6 +85,20 @@ def cfg_names():
                     names.add(w)
     return sorted(names)
 
+def env_names():
+    """names of environment variables read at compile time anywhere in the crate's sources"""
+    names = set()
+    for f in glob.glob(REPO + "/src/**/*.rs", recursive=True) + glob.glob(REPO + "/build.rs"):
+        try:
+            txt = open(f, errors="replace").read()
+        except OSError:
+            continue
+        for m in re.finditer(r'\b(?:option_env|env)\s*!\s*\(\s*"([A-Za-z_][A-Za-z0-9_]*)"', txt):
+            names.add(m.group(1))
+        for m in re.finditer(r'\benv::var(?:_os)?\s*\(\s*"([A-Za-z_][A-Za-z0-9_]*)"', txt):
+            names.add(m.group(1))      # a build script asking at build time
+    return sorted(names)
+
 def c13(tier, seed):
     d = workdir("c13")
     src = ["#![allow(dead_code)]", "use minivec::MiniVec;", "use core::mem::{size_of, align_of};",
@@ -118,11 +132,16 @@ def c13(tier, seed):
     # that depends on a cfg the usual builds never set (miri, loom, fuzzing, a private knob) is still a layout of the crate
     for name in cfg_names():
         configs.append(("cfg-" + name, ["--cfg", name]))
+    # ... and every environment variable the sources read at compile time (`option_env!`, `env!`) gets one in which it is set
+    build_env = {}
+    for name in env_names():
+        configs.append(("env-" + name, []))
+        build_env["env-" + name] = {name: "1"}
     built = []
     for name, flags in configs:
         lib = "%s/libminivec_%s.rlib" % (d, name.replace("-", "_"))
         p1 = subprocess.run(["rustc", "--edition", "2018", "--crate-type", "rlib", "--crate-name", "minivec", "-A", "warnings", "-o", lib] + flags + [REPO + "/src/lib.rs"],
-                            capture_output=True, text=True)
+                            capture_output=True, text=True, env=dict(os.environ, **build_env.get(name, {})))
         if p1.returncode != 0:
             viol.append({"signature": "c13-build-" + name, "concrete": False, "payload": {"what": "the crate does not compile in configuration " + name, "stderr": p1.stderr[-400:]}})
             continue
@@ -243,6 +262,9 @@ THREAD_PROGS = [
     ("send-borrowed-into-iter-ok", True, "use minivec::MiniVec;\npub fn f() { let data = [1u64, 2, 3]; let v: MiniVec<&u64> = data.iter().collect(); let it = v.into_iter(); std::thread::scope(|sc| { sc.spawn(move || it.count()); }); }\n"),
     ("send-borrowed-drain-ok", True, "use minivec::MiniVec;\npub fn f() { let data = [1u64, 2, 3]; let mut v: MiniVec<&u64> = data.iter().collect(); let d = v.drain(..); std::thread::scope(|sc| { sc.spawn(move || d.count()); }); }\n"),
     ("send-mut-ref-borrowed-ok", True, "use minivec::MiniVec;\nuse std::borrow::Cow;\npub fn f() { let s = String::from(\"x\"); let mut v: MiniVec<Cow<'_, str>> = MiniVec::new(); v.push(Cow::Borrowed(&s)); let r = &mut v; std::thread::scope(|sc| { sc.spawn(move || r.clear()); }); }\n"),
+    # element types that may be SHARED but not SENT (lock guards): sharing a vector of them needs `T: Sync` and nothing more
+    ("share-sync-not-send-ok", True, "use minivec::MiniVec;\nuse std::sync::Mutex;\npub fn f() { let m = Mutex::new(1i32); let mut v: MiniVec<std::sync::MutexGuard<'_, i32>> = MiniVec::new(); v.push(m.lock().unwrap()); let r = &v; std::thread::scope(|sc| { sc.spawn(move || r.len()); }); }\n"),
+    ("send-sync-not-send", False, "use minivec::MiniVec;\nuse std::sync::Mutex;\npub fn f() { let m = Mutex::new(1i32); let mut v: MiniVec<std::sync::MutexGuard<'_, i32>> = MiniVec::new(); v.push(m.lock().unwrap()); std::thread::scope(|sc| { sc.spawn(move || v.len()); }); }\n"),
     ("send-static-spawn-ok", True, "use minivec::{MiniVec, mini_vec};\npub fn f() { let v: MiniVec<String> = mini_vec![String::new()]; std::thread::spawn(move || v.len()).join().unwrap(); }\n"),
 ]
 
@@ -511,8 +533,45 @@ fn check_directed(a: &[u8], b: &[u8], n: &mut u64, bad: &mut Vec<String>) {
     }
   }
 }
+/// comparisons across element TYPES of different sizes (`String` with `&str`, `Cow<str>` with `&str`, nested vectors with
+/// arrays) and hashes of long vectors (more than 1024 elements)
+fn check_cross_and_long(n: &mut u64, bad: &mut Vec<String>) {
+  use std::borrow::Cow;
+  let words = ["a", "bc", "", "def"];
+  for k in 0..=words.len() {
+    for alt in [false, true] {
+      let s: Vec<String> = words[..k].iter().map(|w| w.to_string()).collect();
+      let mut t: Vec<&str> = words[..k].to_vec();
+      if alt && k > 0 { t[k - 1] = "zz"; }
+      let (vs, vt): (MiniVec<String>, MiniVec<&str>) = (MiniVec::from(&s[..]), MiniVec::from(&t[..]));
+      *n += 1;
+      if (vs == vt) != (s[..] == t[..]) || (vs != vt) != (s[..] != t[..]) { bad.push(format!("cross-type MiniVec<String> == MiniVec<&str> on {:?} {:?}", s, t)); }
+      if (vt == vs) != (t[..] == s[..]) { bad.push(format!("cross-type MiniVec<&str> == MiniVec<String> on {:?} {:?}", t, s)); }
+      let c: Vec<Cow<'_, str>> = t.iter().map(|w| Cow::Borrowed(*w)).collect();
+      let vc: MiniVec<Cow<'_, str>> = MiniVec::from(&c[..]);
+      if (vc == vt) != (c[..] == t[..]) || (vc == vs) != (c[..] == s[..]) { bad.push(format!("cross-type MiniVec<Cow<str>> on {:?}", t)); }
+      let nested: MiniVec<MiniVec<u8>> = t.iter().map(|w| MiniVec::from(w.as_bytes())).collect();
+      let nref: Vec<Vec<u8>> = t.iter().map(|w| w.as_bytes().to_vec()).collect();
+      let nested2: MiniVec<Vec<u8>> = nref.iter().cloned().collect();
+      if (nested == nested2) != (nref[..] == nref[..]) { bad.push(format!("cross-type MiniVec<MiniVec<u8>> == MiniVec<Vec<u8>> on {:?}", t)); }
+    }
+  }
+  for len in [1023usize, 1024, 1025, 1500, 3000] {
+    let a: Vec<u8> = (0..len).map(|i| (i * 7 % 251) as u8).collect();
+    let mut b = a.clone(); b[len / 2] ^= 1;
+    let (va, vb) = (MiniVec::from(&a[..]), MiniVec::from(&b[..]));
+    *n += 1;
+    if h(&va) != h(&a[..]) || h(&vb) != h(&b[..]) || rec(&va) != rec(&a[..]) { bad.push(format!("hash of a vector of {} bytes differs from the slice's", len)); }
+    let mut m: HashMap<MiniVec<u8>, u32> = HashMap::new(); m.insert(va.clone(), 1);
+    if m.get(&a[..]) != Some(&1) || m.get(&b[..]).is_some() { bad.push(format!("HashMap lookup by slice, key of {} bytes", len)); }
+    let w: Vec<u64> = (0..len as u64).collect();
+    if h(&MiniVec::from(&w[..])) != h(&w[..]) { bad.push(format!("hash of a vector of {} words differs from the slice's", len)); }
+  }
+}
 fn main() {
   std::panic::set_hook(Box::new(|_| {}));
+  { let (mut n0, mut bad0) = (0u64, vec![]); check_cross_and_long(&mut n0, &mut bad0);
+    if !bad0.is_empty() { for b in bad0.iter().take(3) { println!("MISMATCH {}", b); } std::process::exit(1); } }
   for a in [&[][..], &[1u8][..], &[2, 3], &[2, 3, 4], &[2, 3, 5], &[3, 3, 4], &[2, 3, 4, 5]] {
     for b in [&[][..], &[1u8][..], &[0], &[2, 3], &[3, 2], &[2, 3, 4], &[2, 2, 4], &[2, 3, 4, 5], &[9, 3, 4]] {
       let (mut n0, mut bad0) = (0u64, vec![]);
